@@ -1,0 +1,471 @@
+//! Verification hooks (feature `verif-hooks`, off by default).
+//!
+//! Nothing in here changes the behaviour of the library: the module offers a virtual clock and a
+//! deterministic random source that are only active on threads that installed them, and thin public
+//! wrappers around crate-private building blocks so that an external harness can drive them.
+#![allow(missing_docs)]
+
+use crate::frame_info::PlayerInput;
+use crate::input_queue::InputQueue;
+use crate::network::messages::ConnectionStatus;
+use crate::network::protocol::{Event, UdpProtocol};
+use crate::time_sync::TimeSync;
+use crate::{Config, DesyncDetection, Frame, InputStatus, Message, NonBlockingSocket, PlayerHandle};
+use std::collections::HashMap;
+
+/// Virtual clock. `Instant::now()` and `millis_since_epoch()` read the thread-local virtual time
+/// when one has been installed with [`clock::set_ms`], and the real clock otherwise.
+pub mod clock {
+    use instant::Duration;
+    use std::cell::Cell;
+    use std::ops::Add;
+    use std::sync::OnceLock;
+
+    thread_local! {
+        static VIRTUAL_MS: Cell<Option<u64>> = const { Cell::new(None) };
+    }
+    static ORIGIN: OnceLock<instant::Instant> = OnceLock::new();
+
+    /// Installs (Some) or removes (None) the virtual clock of this thread.
+    pub fn set_ms(ms: Option<u64>) {
+        VIRTUAL_MS.with(|c| c.set(ms));
+    }
+
+    /// Advances the virtual clock of this thread (no-op if none is installed).
+    pub fn advance_ms(delta: u64) {
+        VIRTUAL_MS.with(|c| {
+            if let Some(ms) = c.get() {
+                c.set(Some(ms + delta));
+            }
+        });
+    }
+
+    /// The virtual time of this thread, if a virtual clock is installed.
+    pub fn virtual_ms() -> Option<u64> {
+        VIRTUAL_MS.with(Cell::get)
+    }
+
+    /// Drop-in replacement for the subset of `instant::Instant` the library uses.
+    #[derive(Copy, Clone, Debug, PartialEq, Eq, PartialOrd, Ord)]
+    pub struct Instant(Duration);
+
+    impl Instant {
+        pub fn now() -> Self {
+            match virtual_ms() {
+                Some(ms) => Self(Duration::from_millis(ms)),
+                None => Self(ORIGIN.get_or_init(instant::Instant::now).elapsed()),
+            }
+        }
+    }
+
+    impl Add<Duration> for Instant {
+        type Output = Instant;
+        fn add(self, rhs: Duration) -> Instant {
+            Instant(self.0 + rhs)
+        }
+    }
+}
+
+/// Deterministic random source. `random()` draws from the thread-local generator when one has been
+/// seeded with [`rng::seed`], and from `rand` otherwise.
+pub mod rng {
+    use std::cell::Cell;
+
+    thread_local! {
+        static STATE: Cell<Option<u64>> = const { Cell::new(None) };
+    }
+
+    /// Seeds (Some) or removes (None) the deterministic generator of this thread.
+    pub fn seed(seed: Option<u64>) {
+        STATE.with(|c| c.set(seed));
+    }
+
+    fn next_u32() -> Option<u32> {
+        STATE.with(|c| {
+            c.get().map(|s| {
+                // splitmix64
+                let s = s.wrapping_add(0x9E37_79B9_7F4A_7C15);
+                c.set(Some(s));
+                let mut z = s;
+                z = (z ^ (z >> 30)).wrapping_mul(0xBF58_476D_1CE4_E5B9);
+                z = (z ^ (z >> 27)).wrapping_mul(0x94D0_49BB_1331_11EB);
+                ((z ^ (z >> 31)) >> 32) as u32
+            })
+        })
+    }
+
+    pub trait VerifRandom {
+        fn draw() -> Self;
+    }
+    impl VerifRandom for u16 {
+        fn draw() -> Self {
+            match next_u32() {
+                Some(v) => v as u16,
+                None => ::rand::random::<u16>(),
+            }
+        }
+    }
+    impl VerifRandom for u32 {
+        fn draw() -> Self {
+            match next_u32() {
+                Some(v) => v,
+                None => ::rand::random::<u32>(),
+            }
+        }
+    }
+
+    /// Same call shape as `rand::random::<T>()`.
+    pub fn random<T: VerifRandom>() -> T {
+        T::draw()
+    }
+}
+
+/// The input codec of `network::compression`.
+pub mod codec {
+    pub fn encode(reference: &[u8], inputs: &[Vec<u8>]) -> Vec<u8> {
+        crate::network::compression::encode(reference, inputs.iter())
+    }
+
+    pub fn decode(reference: &[u8], data: &[u8]) -> Result<Vec<Vec<u8>>, String> {
+        crate::network::compression::decode(reference, data).map_err(|e| e.to_string())
+    }
+}
+
+/// Public mirror of the crate-private message structure.
+pub mod msg {
+    use crate::network::messages::{
+        ChecksumReport, ConnectionStatus, Input, InputAck, Message, MessageBody, MessageHeader,
+        QualityReply, QualityReport, SyncReply, SyncRequest,
+    };
+    use crate::Frame;
+
+    #[derive(Clone, Debug, PartialEq, Eq)]
+    pub enum Body {
+        SyncRequest(u32),
+        SyncReply(u32),
+        Input {
+            status: Vec<(bool, Frame)>,
+            disconnect_requested: bool,
+            start_frame: Frame,
+            ack_frame: Frame,
+            bytes: Vec<u8>,
+        },
+        InputAck(Frame),
+        QualityReport { frame_advantage: i16, ping: u128 },
+        QualityReply(u128),
+        ChecksumReport { checksum: u128, frame: Frame },
+        KeepAlive,
+    }
+
+    #[derive(Clone, Debug, PartialEq, Eq)]
+    pub struct MsgView {
+        pub magic: u16,
+        pub body: Body,
+    }
+
+    pub fn view(msg: &Message) -> MsgView {
+        let body = match &msg.body {
+            MessageBody::SyncRequest(b) => Body::SyncRequest(b.random_request),
+            MessageBody::SyncReply(b) => Body::SyncReply(b.random_reply),
+            MessageBody::Input(b) => Body::Input {
+                status: b
+                    .peer_connect_status
+                    .iter()
+                    .map(|s| (s.disconnected, s.last_frame))
+                    .collect(),
+                disconnect_requested: b.disconnect_requested,
+                start_frame: b.start_frame,
+                ack_frame: b.ack_frame,
+                bytes: b.bytes.clone(),
+            },
+            MessageBody::InputAck(b) => Body::InputAck(b.ack_frame),
+            MessageBody::QualityReport(b) => Body::QualityReport {
+                frame_advantage: b.frame_advantage,
+                ping: b.ping,
+            },
+            MessageBody::QualityReply(b) => Body::QualityReply(b.pong),
+            MessageBody::ChecksumReport(b) => Body::ChecksumReport {
+                checksum: b.checksum,
+                frame: b.frame,
+            },
+            MessageBody::KeepAlive => Body::KeepAlive,
+        };
+        MsgView {
+            magic: msg.header.magic,
+            body,
+        }
+    }
+
+    pub fn build(view: &MsgView) -> Message {
+        let body = match &view.body {
+            Body::SyncRequest(r) => MessageBody::SyncRequest(SyncRequest { random_request: *r }),
+            Body::SyncReply(r) => MessageBody::SyncReply(SyncReply { random_reply: *r }),
+            Body::Input {
+                status,
+                disconnect_requested,
+                start_frame,
+                ack_frame,
+                bytes,
+            } => MessageBody::Input(Input {
+                peer_connect_status: status
+                    .iter()
+                    .map(|&(disconnected, last_frame)| ConnectionStatus {
+                        disconnected,
+                        last_frame,
+                    })
+                    .collect(),
+                disconnect_requested: *disconnect_requested,
+                start_frame: *start_frame,
+                ack_frame: *ack_frame,
+                bytes: bytes.clone(),
+            }),
+            Body::InputAck(f) => MessageBody::InputAck(InputAck { ack_frame: *f }),
+            Body::QualityReport {
+                frame_advantage,
+                ping,
+            } => MessageBody::QualityReport(QualityReport {
+                frame_advantage: *frame_advantage,
+                ping: *ping,
+            }),
+            Body::QualityReply(p) => MessageBody::QualityReply(QualityReply { pong: *p }),
+            Body::ChecksumReport { checksum, frame } => {
+                MessageBody::ChecksumReport(ChecksumReport {
+                    checksum: *checksum,
+                    frame: *frame,
+                })
+            }
+            Body::KeepAlive => MessageBody::KeepAlive,
+        };
+        Message {
+            header: MessageHeader { magic: view.magic },
+            body,
+        }
+    }
+}
+
+fn to_status(status: &[(bool, Frame)]) -> Vec<ConnectionStatus> {
+    status
+        .iter()
+        .map(|&(disconnected, last_frame)| ConnectionStatus {
+            disconnected,
+            last_frame,
+        })
+        .collect()
+}
+
+/// Thin wrapper around the crate-private `InputQueue`.
+pub struct Queue<T: Config>(InputQueue<T>);
+
+impl<T: Config> Default for Queue<T> {
+    fn default() -> Self {
+        Self::new()
+    }
+}
+
+impl<T: Config> Queue<T> {
+    pub fn new() -> Self {
+        Self(InputQueue::new())
+    }
+    pub fn add_input(&mut self, frame: Frame, input: T::Input) -> Frame {
+        self.0.add_input(PlayerInput::new(frame, input))
+    }
+    pub fn input(&mut self, frame: Frame) -> (T::Input, InputStatus) {
+        self.0.input(frame)
+    }
+    pub fn confirmed_input(&self, frame: Frame) -> (Frame, T::Input) {
+        let pi = self.0.confirmed_input(frame);
+        (pi.frame, pi.input)
+    }
+    pub fn discard_confirmed_frames(&mut self, frame: Frame) {
+        self.0.discard_confirmed_frames(frame);
+    }
+    pub fn reset_prediction(&mut self) {
+        self.0.reset_prediction();
+    }
+    pub fn set_frame_delay(&mut self, delay: usize) -> Vec<(Frame, T::Input)> {
+        self.0
+            .set_frame_delay(delay)
+            .into_iter()
+            .map(|pi| (pi.frame, pi.input))
+            .collect()
+    }
+    pub fn first_incorrect_frame(&self) -> Frame {
+        self.0.first_incorrect_frame()
+    }
+}
+
+/// Public mirror of the crate-private endpoint event.
+#[derive(Clone, Debug, PartialEq)]
+pub enum EventView<I> {
+    Synchronizing { total: u32, count: u32 },
+    Synchronized,
+    Input { frame: Frame, input: I, player: PlayerHandle },
+    Disconnected,
+    NetworkInterrupted { disconnect_timeout: u128 },
+    NetworkResumed,
+}
+
+/// Read-only sizes and scalars of one endpoint.
+#[derive(Clone, Debug, Default, PartialEq, Eq)]
+pub struct EndpointInfo {
+    pub state: &'static str,
+    pub pending_output: usize,
+    pub recv_inputs: usize,
+    pub pending_checksums: usize,
+    pub sync_random_requests: usize,
+    pub send_queue: usize,
+    pub event_queue: usize,
+    pub last_acked_frame: Frame,
+    pub last_recv_frame: Frame,
+    pub local_frame_advantage: i32,
+    pub remote_frame_advantage: i32,
+    pub round_trip_time: u128,
+    pub peer_connect_status: Vec<(bool, Frame)>,
+}
+
+struct CollectSocket<A>(std::sync::Arc<parking_lot::Mutex<Vec<(A, Message)>>>);
+impl<A: Clone + PartialEq + Eq + std::hash::Hash + Send + Sync> NonBlockingSocket<A>
+    for CollectSocket<A>
+{
+    fn send_to(&mut self, msg: &Message, addr: &A) {
+        self.0.lock().push((addr.clone(), msg.clone()));
+    }
+    fn receive_all_messages(&mut self) -> Vec<(A, Message)> {
+        Vec::new()
+    }
+}
+
+/// Thin wrapper around the crate-private `UdpProtocol`.
+pub struct Endpoint<T: Config>(UdpProtocol<T>);
+
+impl<T: Config> Endpoint<T>
+where
+    T::Address: Send + Sync + 'static,
+{
+    #[allow(clippy::too_many_arguments)]
+    pub fn new(
+        handles: Vec<PlayerHandle>,
+        peer_addr: T::Address,
+        num_players: usize,
+        local_players: usize,
+        max_prediction: usize,
+        disconnect_timeout_ms: u64,
+        disconnect_notify_ms: u64,
+        fps: usize,
+        desync_detection: DesyncDetection,
+    ) -> Self {
+        Self(UdpProtocol::new(
+            handles,
+            peer_addr,
+            num_players,
+            local_players,
+            max_prediction,
+            instant::Duration::from_millis(disconnect_timeout_ms),
+            instant::Duration::from_millis(disconnect_notify_ms),
+            fps,
+            desync_detection,
+        ))
+    }
+    pub fn synchronize(&mut self) {
+        self.0.synchronize();
+    }
+    pub fn handle_message(&mut self, msg: &Message) {
+        self.0.handle_message(msg);
+    }
+    pub fn poll(&mut self, status: &[(bool, Frame)]) -> Vec<EventView<T::Input>> {
+        let status = to_status(status);
+        self.0.poll(&status).map(event_view::<T>).collect()
+    }
+    pub fn send_input(&mut self, inputs: &[(PlayerHandle, Frame, T::Input)], status: &[(bool, Frame)]) {
+        let status = to_status(status);
+        let map: HashMap<PlayerHandle, PlayerInput<T::Input>> = inputs
+            .iter()
+            .map(|&(h, f, i)| (h, PlayerInput::new(f, i)))
+            .collect();
+        self.0.send_input(&map, &status);
+    }
+    pub fn send_checksum_report(&mut self, frame: Frame, checksum: u128) {
+        self.0.send_checksum_report(frame, checksum);
+    }
+    pub fn disconnect(&mut self) {
+        self.0.disconnect();
+    }
+    pub fn update_local_frame_advantage(&mut self, local_frame: Frame) {
+        self.0.update_local_frame_advantage(local_frame);
+    }
+    pub fn average_frame_advantage(&self) -> i32 {
+        self.0.average_frame_advantage()
+    }
+    pub fn network_stats(&self) -> Result<crate::NetworkStats, crate::GgrsError> {
+        self.0.network_stats()
+    }
+    pub fn is_running(&self) -> bool {
+        self.0.is_running()
+    }
+    pub fn is_synchronized(&self) -> bool {
+        self.0.is_synchronized()
+    }
+    /// Everything `send_all_messages` hands to the socket.
+    pub fn drain_messages(&mut self) -> Vec<Message> {
+        let sink = std::sync::Arc::new(parking_lot::Mutex::new(Vec::new()));
+        let mut sock: Box<dyn NonBlockingSocket<T::Address>> =
+            Box::new(CollectSocket(sink.clone()));
+        self.0.send_all_messages(&mut sock);
+        let out = sink.lock().drain(..).map(|(_, m)| m).collect();
+        out
+    }
+    pub fn info(&self) -> EndpointInfo {
+        self.0.verif_info()
+    }
+}
+
+pub(crate) fn event_view<T: Config>(e: Event<T>) -> EventView<T::Input> {
+    match e {
+        Event::Synchronizing { total, count } => EventView::Synchronizing { total, count },
+        Event::Synchronized => EventView::Synchronized,
+        Event::Input { input, player } => EventView::Input {
+            frame: input.frame,
+            input: input.input,
+            player,
+        },
+        Event::Disconnected => EventView::Disconnected,
+        Event::NetworkInterrupted { disconnect_timeout } => {
+            EventView::NetworkInterrupted { disconnect_timeout }
+        }
+        Event::NetworkResumed => EventView::NetworkResumed,
+    }
+}
+
+/// Thin wrapper around the crate-private `TimeSync`.
+#[derive(Default)]
+pub struct TimeSyncW(TimeSync);
+
+impl TimeSyncW {
+    pub fn new() -> Self {
+        Self(TimeSync::new())
+    }
+    pub fn advance_frame(&mut self, frame: Frame, local_adv: i32, remote_adv: i32) {
+        self.0.advance_frame(frame, local_adv, remote_adv);
+    }
+    pub fn average_frame_advantage(&self) -> i32 {
+        self.0.average_frame_advantage()
+    }
+}
+
+/// Buffer sizes of a `P2PSession`, for boundedness checks.
+#[derive(Clone, Debug, Default)]
+pub struct P2PSizes {
+    pub event_queue: usize,
+    pub pending_local_inputs: usize,
+    pub outgoing_local_inputs: usize,
+    pub local_checksum_history: usize,
+    pub remotes: Vec<(String, EndpointInfo)>,
+    pub spectators: Vec<(String, EndpointInfo)>,
+}
+
+/// Buffer sizes of a `SpectatorSession`.
+#[derive(Clone, Debug, Default)]
+pub struct SpectatorSizes {
+    pub event_queue: usize,
+    pub host: EndpointInfo,
+}
